@@ -117,6 +117,13 @@ CHECKS.update({
             "Trusted: TLC, CPython strptime as the raw reading, the system clock bracketed around each call. Localized names are checked with full-name directives only: the library translates every localized name to the full English name, so %b / %a formats with localized names are served by the heuristic fallback (documented observation).",
             "DESIGN.md 4 C14"),
 })
+CHECKS.update({
+    "C18": ("model_checking",
+            "TLA+ transcription of sanitize_date / sanitize_spaces on character-class strings (Sanitize.tla) model-checked with TLC over every class string up to length 6 (thorough 7); real strings x whitespace rewritings x every Unicode decimal-digit block compared by TLC (T_C18.tla), which also checks that the real sanitiser commutes with the class abstraction",
+            "TLC checks on every class string that each rewriting of the fixed family (pad, double, tab, newline, NBSP, mixed runs, trailing colon) of a clean string sanitises back to it and that the sanitiser commutes with the digit-script substitution; the pinned period rule is run too and must be refuted. On the real code, English forms (incl. decimals and period-separated clock times) and a dated string in every language are parsed in 10 whitespace rewritings and with their digits replaced by each Unicode Nd block (quick: a seeded subset plus Arabic-Indic, Persian, Tibetan, full-width); TLC checks result equality and the refinement of the sanitiser.",
+            "Trusted: TLC, the class abstraction of harness/lib.py, unicodedata for the digit blocks. The statement's corpus is represented by generated strings per language.",
+            "DESIGN.md 4 C18"),
+})
 NOT_YET = {}
 
 def main():
